@@ -46,9 +46,9 @@ func verifAssert(label string, c bool) {
 
 //@ func (*msgReceiver).Read
 //@   requires wf: r.stream != nil && r.b != nil
-//@   requires cursor: 0 <= r.s && 0 <= r.tl && (r.tl == 0 || r.s <= r.tl)
+//@   requires cursor: 0 <= r.s && r.s <= r.tl
 //@   requires sep: !sameobj(r.stream, r) && !sameobj(r.b, r) && !sameobj(r.stream, r.b)
+//@   ensures cursor: 0 <= r.s && r.s <= r.tl
 //@   loop 1 invariant wf: r.stream != nil && r.b != nil && r.b == old(r.b) && r.stream == old(r.stream)
+//@   loop 1 invariant cursor: 0 <= r.s && r.s <= r.tl
 //@   loop 1 assigns r, r.b, r.stream
-//@   loop 2 invariant wf: r.stream != nil && r.b != nil && r.b == old(r.b) && r.stream == old(r.stream)
-//@   loop 2 assigns r, r.b, r.stream
